@@ -40,12 +40,12 @@ theorem Reads.bind_pure {α β} {p : Prog α} {f : α → Prog β} {b : List Nat
 theorem Reads.of_eq {α} {p : Prog α} {b b' : List Nat} {x : α} (h : Reads p b x) (e : b = b') :
     Reads p b' x := e ▸ h
 
-theorem Reads.uint (v : Nat) (hv : v < 2 ^ 60) : Reads pUInt (uintOp v).bytes v := by
+theorem Reads.uint (v : Nat) (hv : v < 2 ^ 64) : Reads pUInt (uintOp v).bytes v := by
   intro rest t n pn
   obtain ⟨t', h⟩ := readUInt_roundtrip v hv rest t n pn
   exact ⟨t', v, h⟩
 
-theorem Reads.str (s : Str) (h : s.length < 4096) (hu : validUtf8 s = true) :
+theorem Reads.str (s : Str) (h : s.length < 2 ^ 64) (hu : validUtf8 s = true) :
     Reads pStr (Op.str s).bytes s := by
   intro rest t n pn
   exact ⟨strTid s, 0, readString_roundtrip s h hu rest t n pn⟩
@@ -56,7 +56,7 @@ theorem Reads.bool (b : Bool) : Reads pBool (boolOp b).bytes b := by
 
 def WFOptStr : Option Str → Prop
   | none => True
-  | some s => s.length < 4096 ∧ validUtf8 s = true
+  | some s => s.length < 2 ^ 64 ∧ validUtf8 s = true
 
 theorem Reads.optStr (o : Option Str) (h : WFOptStr o) : Reads pOptStr (optStrOp o).bytes o := by
   intro rest t n pn
@@ -87,7 +87,7 @@ theorem Reads.rep {α} {p : Prog α} {enc : α → List Nat} (l : List α)
     rw [List.flatMap_cons]
     exact Reads.bind ha (Reads.bind_pure hl rfl)
 
-theorem Reads.list {α} {p : Prog α} {enc : α → List Nat} (l : List α) (hl : l.length < 2 ^ 60)
+theorem Reads.list {α} {p : Prog α} {enc : α → List Nat} (l : List α) (hl : l.length < 2 ^ 64)
     (h : ∀ a ∈ l, Reads p (enc a) a) :
     Reads (Rfsm.Codec.readList p) ((uintOp l.length).bytes ++ l.flatMap enc) l :=
   Reads.bind (Reads.uint l.length hl) (Reads.rep l h)
